@@ -31,8 +31,11 @@ def kinds_in(s):
 
 def run(chk):
     w = C.world_for(chk)
-    from . import c01_addscore
-    c01_addscore.run(chk, w)
+    # the function a trained model computes is the one Predictor::predict evaluates: every structural scoring rule of C01
+    # (threshold, padding, pipeline, iterator/weight pairing, offsets, cache, scorer absence, placement, suffix merge) is a
+    # necessary condition here as well
+    from . import c01 as _c01
+    _c01.run(chk)
     for rid, txt in (("R09.1", "kind consistency char<->type"), ("R09.2", "arm forms and twins"),
                      ("R09.3", "dictionary role flow"), ("R09.4", "bias provenance")):
         chk.rule(rid, txt)
